@@ -221,7 +221,7 @@ pub fn bisync_io_faults(mode: &str, seed: u64, thorough: bool) -> (u64, Vec<Viol
                 let Some(failed) = std::fs::read_to_string(&logp).ok().and_then(|t| t.lines().find(|l| l.ends_with("FAILED")).map(|l| l.split('\t').skip(2).take(2).collect::<Vec<_>>().join(" "))) else { continue };
                 let _ = klog;
                 let st = slot.state();
-                let completed = r.code == Some(0) || (r.code == Some(1) && r.stderr.to_lowercase().contains("conflict"));
+                let completed = r.code == Some(0) || (r.code == Some(1) && r.stderr.contains("had conflicts"));
                 let det = json!({"io_fault": {"scenario": s.name, "k": k, "errno": errno, "reads": reads}});
                 let what = format!("scenario {} with libc call #{k}{} ({}) failing with errno {errno}, exit {:?}", s.name, if reads { " (reads counted)" } else { "" }, failed.rsplit('/').next().unwrap_or(""), r.code);
                 if r.signal.is_some() {
@@ -269,7 +269,7 @@ pub fn bisync_io_faults(mode: &str, seed: u64, thorough: bool) -> (u64, Vec<Viol
                         for _ in 0..3 {
                             let rr = slot.bisync(None, None);
                             runs += 1;
-                            if rr.code == Some(0) || (rr.code == Some(1) && rr.stderr.to_lowercase().contains("conflict")) {
+                            if rr.code == Some(0) || (rr.code == Some(1) && rr.stderr.contains("had conflicts")) {
                                 ok = true;
                                 break;
                             }
@@ -673,7 +673,7 @@ fn c08_prepared(slot: &Slot, s: &NameOnly, max_subsets: usize, post_edit: bool, 
     if normalise(&log1, &slot.root) != normalise(&log2, &slot.root) || r1.code != r2.code || slot.state() != fin {
         machinery_error(format!("scenario {}: two uninterrupted runs differ (log or final state) — nondeterminism not owned", s.name));
     }
-    if !(r1.code == Some(0) || (r1.code == Some(1) && r1.stderr.to_lowercase().contains("conflict"))) {
+    if !(r1.code == Some(0) || (r1.code == Some(1) && r1.stderr.contains("had conflicts"))) {
         machinery_error(format!("scenario {}: uninterrupted run failed: {:?} {}", s.name, r1.code, r1.stderr));
     }
     let n = log1.len() as u64;
@@ -754,7 +754,7 @@ fn c08_prepared(slot: &Slot, s: &NameOnly, max_subsets: usize, post_edit: bool, 
             let mut last_err = String::new();
             for _ in 0..3 {
                 let r = slot.bisync(None, None);
-                if r.code == Some(0) || (r.code == Some(1) && r.stderr.to_lowercase().contains("conflict")) {
+                if r.code == Some(0) || (r.code == Some(1) && r.stderr.contains("had conflicts")) {
                     ok = true;
                     break;
                 }
@@ -806,7 +806,7 @@ fn c08_prepared(slot: &Slot, s: &NameOnly, max_subsets: usize, post_edit: bool, 
                     let mut last_err = String::new();
                     for _ in 0..3 {
                         let r = slot.bisync(None, None);
-                        if r.code == Some(0) || (r.code == Some(1) && r.stderr.to_lowercase().contains("conflict")) {
+                        if r.code == Some(0) || (r.code == Some(1) && r.stderr.contains("had conflicts")) {
                             ok = true;
                             break;
                         }
